@@ -19,9 +19,21 @@ Value(p, W, n) == SumExp(p, W, n - 1)
 \* maximum of the product of diagonal magnitudes over all perfect matchings (as a sum of exponents)
 MaxValue(W, n) == LET S == {Value(p, W, n) : p \in AllMatchings(W, n)} IN CHOOSE x \in S : \A y \in S : y <= x
 StructSingular(W, n) == AllMatchings(W, n) = {}
+\* the same maximum by recursion over the rows (n! instead of n^n candidates; used by the trace verdict for n > 5).
+\* NEG stands for "no perfect matching below this point".
+NEG == -100000000
+RECURSIVE Best(_, _, _, _)
+Best(W, n, k, used) ==
+  IF k = n THEN 0
+  ELSE LET S == {W[<<k, j>>] + Best(W, n, k + 1, used \cup {j}) : j \in {c \in Ix0(n) \ used : <<k, c>> \in DOMAIN W}}
+           F == {x \in S : x > NEG \div 2}
+       IN IF F = {} THEN NEG ELSE CHOOSE x \in F : \A y \in F : y <= x
+MaxValueRec(W, n) == Best(W, n, 0, {})
 \* Hall's condition on the columns (same oracle as SluFactor!StructurallySingular)
 HallViolated(W, n) == \E S \in SUBSET Ix0(n) : Cardinality({i \in Ix0(n) : \E c \in S : <<i, c>> \in DOMAIN W}) < Cardinality(S)
 \* scalings exp(u_i), exp(v_j) in units of ln 2: every scaled entry at most one, matched entries exactly one
+\* Weak duality is what lets the verdict certify optimality without enumeration: if (u, v) is feasible and tight on p then
+\* for any matching q, Value(q) = sum W[i,q[i]] <= -sum u - sum v = Value(p).  MC_Match checks it for every 3 x 3 pattern.
 DualFeasible(u, v, p, W, n) == /\ \A ij \in DOMAIN W : u[ij[1]] + W[ij] + v[ij[2]] <= 0
                                /\ \A i \in Ix0(n) : u[i] + W[<<i, p[i]>>] + v[p[i]] = 0
 =============================================================================
